@@ -4,6 +4,9 @@
 #ifndef VC_T
 #define VC_T 8
 #endif
+#ifndef VC_T_LO
+#define VC_T_LO 2 /* lowest thread count of this instance (VC_T_LO == VC_T: one concrete count) */
+#endif
 #ifndef VC_MAXROWS
 #define VC_MAXROWS ((size_t)1 << 20)
 #endif
@@ -20,7 +23,7 @@ static void mon_decode(void *(*fn)(void *), void *arg)
 void h_slice_getLabels_(void)
 {
   size_t r = VC_IN_SIZE(), cols = VC_IN_SIZE(), nth = VC_IN_SIZE();
-  VC_ASSUME(r <= VC_MAXROWS && cols <= VC_MAXROWS && nth >= 2 && nth <= VC_T);
+  VC_ASSUME(r <= VC_MAXROWS && cols <= VC_MAXROWS && nth >= VC_T_LO && nth <= VC_T);
   matrix m, c; uivector l;
   m.row = r; m.col = cols; m.data = NULL;
   c.row = 1; c.col = cols; c.data = NULL;
